@@ -630,8 +630,18 @@ fn judge(
 // ------------------------------------------------------------------------------------------
 // running
 
-fn case_json(spec: &ZoneSpec, signing: &Signing, qname: &str, qtype: u16) -> Value {
-    json!({"zone": spec.to_json(), "zone_text": spec.to_string(), "signing": signing.tag(), "qname": qname, "qtype": qtype, "qtype_name": rz::type_name(qtype)})
+fn case_json(spec: &ZoneSpec, signing: &Signing, upper: bool, qname: &str, qtype: u16) -> Value {
+    json!({"zone": spec.to_json(), "zone_text": spec.to_string(), "signing": signing.tag(), "upper_case_names": upper, "qname": qname, "qtype": qtype, "qtype_name": rz::type_name(qtype)})
+}
+
+/// Build the zone as given, or with every name in upper case (`upper`): the store must treat
+/// names case-insensitively (RFC 1035 2.3.3), the reference folds case.
+fn build_mat(spec: &ZoneSpec, signing: &Signing, upper: bool) -> Result<vzone::Built, String> {
+    if upper {
+        vzone::build(&spec.upper_cased(), signing)
+    } else {
+        vzone::build(spec, signing)
+    }
 }
 
 /// Run one query; returns the violation (key, what, response text) if any.
@@ -641,13 +651,15 @@ fn run_query(
     facts: &ZoneFacts,
     res: &Resolution,
     qname: &str,
+    upper: bool,
     qtype: u16,
     rt: &tokio::runtime::Runtime,
     l: &mut Local,
 ) -> Option<(Verdict, String)> {
     l.eval();
     let signed = built.signing.is_signed();
-    let asked = vcore::catch(|| vzone::ask(rt, &built.catalog, qname, qtype, signed));
+    let sent = if upper { qname.to_ascii_uppercase() } else { qname.to_string() };
+    let asked = vcore::catch(|| vzone::ask(rt, &built.catalog, &sent, qtype, signed));
     let m = match asked {
         Err(p) => {
             return Some((
@@ -685,7 +697,7 @@ fn signings(thorough: bool) -> Vec<Signing> {
 }
 
 /// Remove owners from the spec while the same query still produces the same key.
-fn minimise(spec: &ZoneSpec, signing: &Signing, qname: &str, qtype: u16, key: &str, rt: &tokio::runtime::Runtime) -> ZoneSpec {
+fn minimise(spec: &ZoneSpec, signing: &Signing, upper: bool, qname: &str, qtype: u16, key: &str, rt: &tokio::runtime::Runtime) -> ZoneSpec {
     let mut cur = spec.clone();
     let mut scratch = Local::default();
     loop {
@@ -693,10 +705,10 @@ fn minimise(spec: &ZoneSpec, signing: &Signing, qname: &str, qtype: u16, key: &s
         for i in 0..cur.owners.len() {
             let mut cand = cur.clone();
             cand.owners.remove(i);
-            let Ok(b) = vzone::build(&cand, signing) else { continue };
+            let Ok(b) = build_mat(&cand, signing, upper) else { continue };
             let z = cand.reference();
             let res = rz::resolve(&z, &Name::parse(qname), qtype);
-            if let Some((vd, _)) = run_query(&b, &z, &facts_of(&z), &res, qname, qtype, rt, &mut scratch) {
+            if let Some((vd, _)) = run_query(&b, &z, &facts_of(&z), &res, qname, upper, qtype, rt, &mut scratch) {
                 if vd.key == key {
                     cur = cand;
                     shrunk = true;
@@ -736,7 +748,9 @@ fn class_of(res: &Resolution) -> String {
     c
 }
 
-fn run_zone(spec: &ZoneSpec, qnames: &[String], sigs: &[Signing], rt: &tokio::runtime::Runtime, l: &mut Local, sample: bool) {
+/// `sigs`: materialisations with the names as written; `upper_sigs`: additional materialisations
+/// with every zone name AND every query name in upper case.
+fn run_zone(spec: &ZoneSpec, qnames: &[String], sigs: &[Signing], upper_sigs: &[Signing], rt: &tokio::runtime::Runtime, l: &mut Local, sample: bool) {
     let zone = spec.reference();
     let facts = facts_of(&zone);
     // reference resolutions once per (qname, qtype)
@@ -748,19 +762,20 @@ fn run_zone(spec: &ZoneSpec, qnames: &[String], sigs: &[Signing], rt: &tokio::ru
         }
     }
     let zone_text = spec.to_string();
-    for signing in sigs {
-        let built = match vzone::build(spec, signing) {
+    let mats: Vec<(&Signing, bool)> = sigs.iter().map(|s| (s, false)).chain(upper_sigs.iter().map(|s| (s, true))).collect();
+    for (signing, upper) in mats {
+        let built = match build_mat(spec, signing, upper) {
             Ok(b) => b,
             Err(e) => {
-                l.violation("zone-build-failed", &e, || json!({"zone": spec.to_json(), "signing": signing.tag()}));
+                l.violation("zone-build-failed", &e, || json!({"zone": spec.to_json(), "signing": signing.tag(), "upper_case_names": upper}));
                 continue;
             }
         };
-        l.outcome(&format!("zones:{}", if signing.is_signed() { "signed" } else { "unsigned" }));
+        l.outcome(&format!("zones:{}{}", if signing.is_signed() { "signed" } else { "unsigned" }, if upper { ":upper-case" } else { "" }));
         for (qi, t, res) in &refs {
             let qn = &qnames[*qi];
             let class = class_of(res);
-            if *signing == Signing::Unsigned {
+            if *signing == Signing::Unsigned && !upper {
                 l.outcome(&format!("ref:{class}"));
                 if class != "DATA" && class != "OUTOFZONE" {
                     // per (zone, qname, outcome class): stays far below vcore's 40 M cap in the thorough tier
@@ -768,21 +783,132 @@ fn run_zone(spec: &ZoneSpec, qnames: &[String], sigs: &[Signing], rt: &tokio::ru
                     let _ = t;
                 }
             }
-            if let Some((vd, resp)) = run_query(&built, &zone, &facts, res, qn, *t, rt, l) {
+            if let Some((vd, resp)) = run_query(&built, &zone, &facts, res, qn, upper, *t, rt, l) {
                 let first = !l.has_violation_key(&vd.key);
                 l.violation(&vd.key, &vd.what, || {
-                    let min = if first { minimise(spec, signing, qn, *t, &vd.key, rt) } else { spec.clone() };
-                    let mut j = case_json(&min, signing, qn, *t);
+                    let min = if first { minimise(spec, signing, upper, qn, *t, &vd.key, rt) } else { spec.clone() };
+                    let mut j = case_json(&min, signing, upper, qn, *t);
                     j["response"] = json!(resp);
                     j["expected"] = json!(format!("{:?}", rz::resolve(&min.reference(), &Name::parse(qn), *t).steps));
                     j
                 });
             }
         }
+        // QCLASS other than IN against the (class IN) zone: the statement does not say what is due
+        // (REFUSED, NOTIMP, ...); only logged, one A query per name
+        if *signing == Signing::Unsigned && !upper {
+            for qn in qnames {
+                if let Ok(bytes) = vzone::ask_raw(rt, &built.catalog, &vzone::query_bytes_class(qn, rz::T_A, 3, false)) {
+                    if let Ok(m) = Message::from_vec(&bytes) {
+                        l.outcome(&format!(
+                            "obs:qclass-CH:{}:{}",
+                            format!("{:?}", m.metadata.response_code).to_uppercase(),
+                            if m.answers.is_empty() { "no-answer" } else { "answers-IN-data" }
+                        ));
+                    }
+                }
+            }
+        }
     }
     if sample {
-        l.sample(json!({"zone": zone_text, "queries": qnames.len() * QTYPES.len(), "signings": sigs.iter().map(|s| s.tag()).collect::<Vec<_>>()}));
+        l.sample(json!({"zone": zone_text, "queries": qnames.len() * QTYPES.len(), "signings": sigs.iter().map(|s| s.tag()).collect::<Vec<_>>(), "upper_case_signings": upper_sigs.iter().map(|s| s.tag()).collect::<Vec<_>>()}));
     }
+}
+
+/// Front-end differential: the same signed/unsigned zone behind the `SqliteZoneHandler` wrapper must
+/// give byte-identical responses (it forwards lookup / search / nsec_records / nsec3_records).
+fn run_front_diff(spec: &ZoneSpec, qnames: &[String], sigs: &[Signing], rt: &tokio::runtime::Runtime, l: &mut Local) {
+    for signing in sigs {
+        let (Ok(a), Ok(b)) = (vzone::build_front(spec, signing, vzone::Front::InMemory), vzone::build_front(spec, signing, vzone::Front::Sqlite)) else {
+            l.violation("zone-build-failed", "front-end differential", || json!({"zone": spec.to_json(), "signing": signing.tag()}));
+            continue;
+        };
+        l.outcome("zones:sqlite-front");
+        for qn in qnames {
+            for t in QTYPES {
+                l.eval();
+                let q = vzone::query_bytes(qn, t, signing.is_signed());
+                let ra = vcore::catch(|| vzone::ask_raw(rt, &a.catalog, &q));
+                let rb = vcore::catch(|| vzone::ask_raw(rt, &b.catalog, &q));
+                let same = match (&ra, &rb) {
+                    (Ok(Ok(x)), Ok(Ok(y))) => x == y,
+                    _ => false,
+                };
+                if same {
+                    l.outcome("front:sqlite:identical");
+                    continue;
+                }
+                // classify the difference by section
+                let what = match (&ra, &rb) {
+                    (Ok(Ok(x)), Ok(Ok(y))) => match (Message::from_vec(x), Message::from_vec(y)) {
+                        (Ok(mx), Ok(my)) => {
+                            if mx.metadata.response_code != my.metadata.response_code {
+                                "rcode".to_string()
+                            } else if mx.answers != my.answers {
+                                "answer".to_string()
+                            } else if mx.authorities != my.authorities {
+                                "authority".to_string()
+                            } else if mx.additionals != my.additionals {
+                                "additional".to_string()
+                            } else {
+                                "header-or-encoding".to_string()
+                            }
+                        }
+                        _ => "undecodable".to_string(),
+                    },
+                    (Err(_), _) | (_, Err(_)) => "panic".to_string(),
+                    _ => "no-response".to_string(),
+                };
+                l.violation(&format!("front-end-differs:sqlite:{what}:{}", if signing.is_signed() { "do=1" } else { "do=0" }), &format!("{qn} {}: the SqliteZoneHandler front end answers differently from the in-memory store it wraps", rz::type_name(t)), || {
+                    let mut j = case_json(spec, signing, false, qn, t);
+                    j["level"] = json!("front");
+                    j
+                });
+            }
+        }
+    }
+}
+
+/// One branch four labels deep: a.z., a.a.z., a.a.a.z., a.a.a.a.z., each absent / A / NS, with
+/// a wildcard A at `*.<level>` for any subset of the levels 0..3 — more than three owners along
+/// ONE branch (delegation walk, empty non-terminals three labels above data, wildcard level choice).
+fn branch_family() -> Vec<(ZoneSpec, Vec<String>)> {
+    let levels = ["a.z.", "a.a.z.", "a.a.a.z.", "a.a.a.a.z."];
+    let wild = ["*.z.", "*.a.z.", "*.a.a.z.", "*.a.a.a.z."];
+    let mut q: Vec<String> = vec!["z.".into()];
+    for l in levels {
+        q.push(l.to_string());
+        q.push(format!("b{}", &l[1..]));
+    }
+    for w in wild {
+        q.push(w.to_string());
+    }
+    q.push("a.a.a.a.a.z.".into());
+    q.push("b.a.a.a.a.z.".into());
+    q.push("b.b.a.a.z.".into());
+    q.push("b.b.b.a.z.".into());
+    let mut out = vec![];
+    for code in 0..81u32 {
+        for wmask in 0..16u32 {
+            let mut owners: Vec<(&str, Kind)> = vec![];
+            let mut c = code;
+            for l in levels {
+                match c % 3 {
+                    1 => owners.push((l, Kind::A)),
+                    2 => owners.push((l, Kind::Ns)),
+                    _ => {}
+                }
+                c /= 3;
+            }
+            for (i, w) in wild.iter().enumerate() {
+                if wmask >> i & 1 == 1 {
+                    owners.push((w, Kind::A));
+                }
+            }
+            out.push((ZoneSpec::new("z.", &owners), q.clone()));
+        }
+    }
+    out
 }
 
 /// CNAME chains of length 1..=9 and loops of length 1..=3 (crosses the server's chase depth 8).
@@ -839,14 +965,29 @@ fn main() {
         let signing = Signing::from_tag(case["signing"].as_str().unwrap_or("unsigned")).unwrap_or(Signing::Unsigned);
         let qname = case["qname"].as_str().unwrap_or("z.").to_string();
         let qtype = case["qtype"].as_u64().unwrap_or(1) as u16;
+        let upper = case["upper_case_names"].as_bool().unwrap_or(false);
         let rt = vsim::rt();
         ctx.with_local(|l| {
+            if case["level"].as_str() == Some("front") {
+                run_front_diff(&spec, &[qname.clone()], &[signing.clone()], &rt, l);
+                return;
+            }
             let zone = spec.reference();
             let res = rz::resolve(&zone, &Name::parse(&qname), qtype);
-            match vzone::build(&spec, &signing) {
+            match build_mat(&spec, &signing, upper) {
                 Err(e) => l.violation("zone-build-failed", &e, || case.clone()),
                 Ok(b) => {
-                    if let Some((vd, resp)) = run_query(&b, &zone, &facts_of(&zone), &res, &qname, qtype, &rt, l) {
+                    // show the response that is being judged
+                    let sent = if upper { qname.to_ascii_uppercase() } else { qname.clone() };
+                    if let Ok(m) = vzone::ask(&rt, &b.catalog, &sent, qtype, signing.is_signed()) {
+                        eprintln!("replay: rcode={:?} aa={}", m.metadata.response_code, m.metadata.authoritative);
+                        for (sec, rrs) in [("answer", &m.answers), ("authority", &m.authorities), ("additional", &m.additionals)] {
+                            for r in rrs {
+                                eprintln!("replay:   {sec}: {r}");
+                            }
+                        }
+                    }
+                    if let Some((vd, resp)) = run_query(&b, &zone, &facts_of(&zone), &res, &qname, upper, qtype, &rt, l) {
                         eprintln!("replay: expected {:?}\nreplay: response {resp}", res.steps);
                         l.violation(&vd.key, &vd.what, || case.clone());
                     }
@@ -858,10 +999,11 @@ fn main() {
 
     ctx.set_rule(
         "every zone = apex + <=K owners of U(d) (labels {a,b,*}) x node kinds {A,TXT,A+TXT,MX,CNAME->{a.z.,b.z.,a.a.z.,x.o.},NS,NS+glue,NS+DS} \
-         (quick d=2,K<=2; thorough adds d=2,K=3 over 8 kinds [unsigned+NSEC] and d=3,K<=2 [unsigned+NSEC+NSEC3]) plus CNAME chains 1..9 / loops 1..3, x every query name of {apex, U(3), x.o., names below cuts} \
+         (quick d=2,K<=2; thorough adds d=2,K=3 over 8 kinds [unsigned+NSEC] and d=3,K<=2 [unsigned+NSEC+NSEC3]) plus CNAME chains 1..9 / loops 1..3 and 1296 four-label single-branch zones (a.z. .. a.a.a.a.z. each absent/A/NS x wildcard A at any subset of the four levels), x every query name of {apex, U(3), x.o., names below cuts} \
          x qtypes {A,AAAA,MX,NS,CNAME,SOA,DS,TXT,ANY}, each as a wire query through the real Catalog against the unsigned (DO=0), NSEC-signed and \
          NSEC3-signed (DO=1) zone; oracle = vref::zone (RFC 1034 4.3.2 + RFC 4592) on rcode, answer RR set, referral cut, SOA in negative answers, \
-         RRSIG/denial presence. Non-trivial = distinct (zone, qname, reference outcome class) whose class is not a plain exact match (CNAME chain, cut, wildcard, ENT, NODATA, NXDOMAIN).",
+         RRSIG/denial presence. Every zone is also materialised with ALL names in upper case and queried in upper case (unsigned; base family also NSEC), \
+         and zones with <=1 owner + the branch family (thorough: the whole base family) are served through the SqliteZoneHandler wrapper as well: byte-identical responses required. Non-trivial = distinct (zone, qname, reference outcome class) whose class is not a plain exact match (CNAME chain, cut, wildcard, ENT, NODATA, NXDOMAIN).",
     );
     ctx.assume("vref::zone (RFC 1034 4.3.2 / RFC 4592 reference lookup; self-tested against RFC 4592 2.2.1/3.3.1 and RFC 4034 6.1 on every run)");
     ctx.assume("zone contents reach the server through InMemoryZoneHandler::upsert_mut and the real secure_zone_mut; Ed25519 (ring) signs deterministically");
@@ -871,25 +1013,28 @@ fn main() {
     let all4 = signings(true);
     let quick3 = signings(false);
     let two = vec![Signing::Unsigned, Signing::Nsec];
-    let mut jobs: Vec<(ZoneSpec, &Vec<Signing>)> = vec![];
+    // upper-case materialisations: unsigned for every zone; thorough: unsigned + NSEC for the base family
+    let up1 = vec![Signing::Unsigned];
+    let up2 = vec![Signing::Unsigned, Signing::Nsec];
+    let mut jobs: Vec<(ZoneSpec, &Vec<Signing>, &Vec<Signing>)> = vec![];
     let base = vzone::family("z.", &vzone::universe(2), 2, &vzone::ALL_KINDS);
     if thorough {
         // (C) d=2, K<=2, all kinds: all four materialisations
-        jobs.extend(base.into_iter().map(|s| (s, &all4)));
+        jobs.extend(base.iter().cloned().map(|s| (s, &all4, &up2)));
         // (A) d=2, K=3, reduced kinds (one CNAME target in, one deeper; no MX): unsigned + NSEC
         let reduced = [Kind::A, Kind::Txt, Kind::ATxt, Kind::CnameA, Kind::CnameAA, Kind::Ns, Kind::NsGlue, Kind::NsDs];
         jobs.extend(
-            vzone::family("z.", &vzone::universe(2), 3, &reduced).into_iter().filter(|s| s.owners.len() == 3).map(|s| (s, &two)),
+            vzone::family("z.", &vzone::universe(2), 3, &reduced).into_iter().filter(|s| s.owners.len() == 3).map(|s| (s, &two, &up1)),
         );
         // (B) d=3, K<=2, all kinds, at least one depth-3 owner: unsigned + NSEC + NSEC3
         jobs.extend(
             vzone::family("z.", &vzone::universe(3), 2, &vzone::ALL_KINDS)
                 .into_iter()
                 .filter(|s| s.owners.iter().any(|(o, _)| o.matches('.').count() == 4))
-                .map(|s| (s, &quick3)),
+                .map(|s| (s, &quick3, &up1)),
         );
     } else {
-        jobs.extend(base.into_iter().map(|s| (s, &quick3)));
+        jobs.extend(base.iter().cloned().map(|s| (s, &quick3, &up1)));
     }
     let chain_sigs = if thorough { &all4 } else { &quick3 };
     let chains = chain_family();
@@ -903,7 +1048,7 @@ fn main() {
         if p.len() == 2 {
             jobs = jobs[p[0].min(jobs.len())..p[1].min(jobs.len())].to_vec();
             ctx.cap(&format!("VERIF_C10_RANGE={r}: only a slice of the job list was run"));
-            for (s, _) in &jobs {
+            for (s, _, _) in &jobs {
                 eprintln!("job: {s}");
             }
         }
@@ -918,9 +1063,9 @@ fn main() {
         4,
         |_| vsim::rt(),
         |i, l, rt| {
-            let (spec, sigs) = &jobs[i as usize];
+            let (spec, sigs, upper_sigs) = &jobs[i as usize];
             let qnames = spec.query_names(3);
-            run_zone(spec, &qnames, sigs, rt, l, i % stride == 0);
+            run_zone(spec, &qnames, sigs, upper_sigs, rt, l, i % stride == 0);
         },
     );
     ctx.par_run_init(
@@ -929,7 +1074,37 @@ fn main() {
         |_| vsim::rt(),
         |i, l, rt| {
             let (spec, q) = &chains[i as usize];
-            run_zone(spec, q, chain_sigs, rt, l, i == 26);
+            run_zone(spec, q, chain_sigs, &up1, rt, l, i == 26);
+        },
+    );
+    // one branch, four labels deep (1296 zones)
+    let branches = branch_family();
+    ctx.set("branch_zones", json!(branches.len()));
+    ctx.par_run_init(
+        branches.len() as u64,
+        4,
+        |_| vsim::rt(),
+        |i, l, rt| {
+            let (spec, q) = &branches[i as usize];
+            run_zone(spec, q, &quick3, &up2, rt, l, i == 700);
+        },
+    );
+    // front-end differential (SqliteZoneHandler over the same store): zones with <= 1 owner and the
+    // branch family (quick); the whole base family (thorough); unsigned, NSEC and NSEC3
+    let front: Vec<(&ZoneSpec, Vec<String>)> = base
+        .iter()
+        .filter(|s| thorough || s.owners.len() <= 1)
+        .map(|s| (s, s.query_names(3)))
+        .chain(branches.iter().map(|(s, q)| (s, q.clone())))
+        .collect();
+    ctx.set("front_end_zones", json!(front.len()));
+    ctx.par_run_init(
+        front.len() as u64,
+        4,
+        |_| vsim::rt(),
+        |i, l, rt| {
+            let (spec, q) = &front[i as usize];
+            run_front_diff(spec, q, &quick3, rt, l);
         },
     );
 
@@ -946,6 +1121,9 @@ fn main() {
         "ref:NXDOMAIN",
         "dnssec:negative-with-denial",
         "dnssec:wildcard-with-denial",
+        "zones:unsigned:upper-case",
+        "zones:signed:upper-case",
+        "front:sqlite:identical",
     ] {
         if ctx.outcome_count(class) == 0 {
             ctx.machinery_failure(&format!("vacuous run: outcome class {class} never occurred"));
